@@ -1,9 +1,9 @@
-(* The naive printer (no parentheses around an array inside an array) is the canonical printer on every
-   statement without a nested array; so the only texts of the documented grammar outside C16_stat_roundtrip are
-   the ones of class nested_array. *)
+(* The plain printer (no parentheses around an array inside an array: `T[][]`) is the canonical printer on every
+   statement without a nested array; with a nested array the two texts differ, both are read back
+   (Proofs/AnnStat.v).  Here: the documented rule TYPE[] applied n times to any documented type, as a text. *)
 From Coq Require Import String Ascii List Arith NArith Bool Lia.
 From LH Require Import Base.Bytes Base.Res Model.AnnLexer Model.AnnAst Model.AnnParser Spec.AnnGrammar
-  Proofs.AnnRoundtrip Proofs.AnnStat.
+  Proofs.AnnRoundtrip Proofs.AnnStat Proofs.AnnPrinter.
 Import ListNotations.
 
 Lemma existsb_false_in {A} (p : A -> bool) l x : existsb p l = false -> In x l -> p x = false.
@@ -67,10 +67,33 @@ Proof.
   - cbn [existsb] in H. apply orb_false_iff in H as [H _]. rewrite show_bare_plain by exact H. reflexivity.
 Qed.
 
-(* the documented grammar read naively: accepted with its structure intact unless it contains a nested array *)
-Theorem stat_roundtrip_plain : forall s,
-  doc_stat s = true -> enum_with_comment s = false -> stat_nested_array s = false ->
-  ann_parse_line (fuel_of (show_line_plain s)) (show_line_plain s) = Ok (inl (embed_stat s)).
+(* ------------------------------------------------------------------ T[][]...[] of any depth *)
+Fixpoint darrs (n : nat) (t : dtype) : dtype := match n with O => t | S n => DArray (darrs n t) end.
+
+Lemma brs_snoc n : brs n ++ t_brackets = brs (S n).
+Proof. induction n as [|n IH]; [reflexivity|]. cbn [brs] in *. rewrite <- app_assoc, IH. reflexivity. Qed.
+
+(* the plain text of t with n + 1 array suffixes: t itself is parenthesised only when it is a union or a fun type *)
+Lemma show_plain_darrs n t :
+  show_type_plain (darrs (S n) t) = paren (item_paren false t) (show_type_plain t) ++ brs (S n).
 Proof.
-  intros s Hd He Hn. rewrite (show_line_plain_eq s Hn). apply stat_roundtrip; assumption.
+  unfold show_type_plain. induction n as [|n IH].
+  - cbn [darrs show_bare brs]. rewrite app_nil_r. reflexivity.
+  - change (darrs (S (S n)) t) with (DArray (darrs (S n) t)). cbn [show_bare].
+    change (item_paren false (darrs (S n) t)) with false. cbn [paren].
+    rewrite IH, <- app_assoc, brs_snoc. reflexivity.
+Qed.
+
+Lemma doc_type_darrs n t : doc_type (darrs n t) = doc_type t.
+Proof. induction n as [|n IH]; [reflexivity|exact IH]. Qed.
+
+(* `T[][]...[]` (n + 1 suffixes, any n, any documented T) is read as the (n+1)-dimensional array of T, nothing left *)
+Theorem nested_array_depth : forall t n, doc_type t = true ->
+  let txt := paren (item_paren false t) (show_type_plain t) ++ brs (S n) in
+  exists a, parse_type (fuel_of txt) txt = Ok (inl (a, [])) /\ abs a = darrs (S n) t.
+Proof.
+  intros t n Hd txt. subst txt. rewrite <- show_plain_darrs.
+  assert (Hd' : doc_type (darrs (S n) t) = true) by (rewrite doc_type_darrs; exact Hd).
+  exists (embed_type_plain (darrs (S n) t)).
+  split; [apply type_roundtrip_plain; exact Hd' | apply abs_embed_one_plain; exact Hd'].
 Qed.
